@@ -143,17 +143,17 @@ def run_c11(tier):
     t0 = time.time()
     H.build("default")
     parts = [
-        dict(engine="c11s", quick=300000, thorough=4000000, build="default"),
-        dict(engine="c11d", quick=60000, thorough=800000, build="default"),
-        dict(engine="c15", quick=30000, thorough=400000, build="default", env={"VERIF_ALLOC_JUNK": "165"}, prefix="C11/native-poison/"),
-        dict(engine="c02", quick=12000, thorough=200000, build="default", env={"VERIF_ALLOC_JUNK": "165"}, prefix="C11/native-poison/"),
+        dict(engine="c11s", quick=3000000, thorough=40000000, build="default"),
+        dict(engine="c11d", quick=400000, thorough=6000000, build="default"),
+        dict(engine="c15", quick=300000, thorough=4000000, build="default", env={"VERIF_ALLOC_JUNK": "165"}, prefix="C11/native-poison/"),
+        dict(engine="c02", quick=100000, thorough=1500000, build="default", env={"VERIF_ALLOC_JUNK": "165"}, prefix="C11/native-poison/"),
     ]
     sums, vios = _native("C11", parts, tier)
     plan = [
         ("strains", "", 16, 96, 30, 0.0),
         ("life15", "", 16, 96, 3, 0.0),
         ("life02", "", 8, 48, 2, 0.0),
-        ("sliders", "", 16, 96, 4, 0.0),
+        ("sliders", "", 16, 96, 12, 0.0),
     ]
     msums, mvios, mstats = M.run("C11", _miri_jobs(plan, tier))
     return _finish("C11", tier, t0, sums, vios, msums, mvios, mstats, C11_RULE,
@@ -165,15 +165,15 @@ def run_c20(tier):
     H.build("default")
     H.build("sync")
     parts = [
-        dict(engine="c20", quick=20000, thorough=300000, build="default"),
-        dict(engine="c20", quick=20000, thorough=300000, build="sync"),
-        dict(engine="c20s", quick=4000, thorough=60000, build="default"),
+        dict(engine="c20", quick=60000, thorough=900000, build="default"),
+        dict(engine="c20", quick=60000, thorough=900000, build="sync"),
+        dict(engine="c20s", quick=20000, thorough=300000, build="default"),
     ]
     sums, vios = _native("C20", parts, tier)
     plan = [
         ("threads", "", 16, 96, 2, 0.05),
         ("threads", "sync", 16, 96, 2, 0.05),
-        ("storm", "", 32, 192, 3, 0.1),
+        ("storm", "", 24, 192, 3, 0.1),
     ]
     msums, mvios, mstats = M.run("C20", _miri_jobs(plan, tier))
     return _finish("C20", tier, t0, sums, vios, msums, mvios, mstats, C20_RULE,
